@@ -96,6 +96,11 @@ CHECKS = {
    text="Instrumented build as for C06 (plus virtual time in the event constructors). Families: slow consumer (11-23 keys typed while the application does not poll, real queue capacities, branching starts when the consumer starts), free interleaving of a feeder, up to two posters and a resize notifier with a polling consumer, HasPendingEvent-then-PollEvent, ChannelEvents with quit or Fini, posts against a nearly full queue, and key sequences split across reads. Every schedule within 2 deviations (1 for the families with several racing producers; thorough +1) is executed; at quiescence the delivered keys must be exactly the typed sequence in order, each poster's events in posting order, PostEvent nil iff delivered exactly once, PollEvent after a true HasPendingEvent must not wait, ChannelEvents must forward an in-order prefix and close, and When() must lie between arrival and delivery on the virtual clock.",
    note="EventResize is outside the exactly-once claim (the code drops it when the queue is full by design); split-sequence decoding is not judged when the virtual escape timer fired in between; same scheduler trusted base as C06.",
    design="2/C05"),
+ "C10": dict(level="model_checking",
+   technique="schedule exploration of all API-call pairs under the controlled scheduler in a -race build with the scheduler's hand-offs hidden from ThreadSanitizer, so every explored schedule is also checked by the happens-before race detector",
+   text="Every unordered pair (including a call with itself) of 33 Screen methods runs on two threads against a live terminfo screen with input traffic and a resize notification, and every pair of the 25 methods meaningful on SimulationScreen against a simulation screen; thorough adds all triples over 12 state-mutating calls. Each program is executed under the controlled scheduler for schedules within 1 deviation (quick: first 6 schedules per program, thorough 300). The build uses -race; the scheduler brackets its baton hand-offs with runtime.RaceDisable/RaceEnable and keeps the program's own sync operations real, so ThreadSanitizer sees exactly the program's happens-before relation in every schedule. Reports are keyed by the pair of tcell functions at the racing accesses; reports whose access frames lie in the harness or scheduler are discarded. Also checked: no panic, no lock deadlock, each Show/Sync reaches the tty as exactly one well-formed Write.",
+   note="ThreadSanitizer's bounded history can miss but never invents a race; race detection is happens-before based, so the schedule bound only serves to reach code paths; prepareKeys' write to a shared Terminfo entry needs two screens and is not exercised.",
+   design="2/C10"),
  # --- new checks above this line ---
 }
 
